@@ -9,6 +9,9 @@ type State struct {
 	pc   []*Term
 	vars map[*types.Var]Value
 	heap map[int]map[string]Value
+	// memo: results of contract calls made on this path, by callee and argument identity (functions under contract are
+	// deterministic in their arguments - assumption A8 - so a repeated call denotes the same value)
+	memo map[string]Value
 }
 
 func newState() *State {
@@ -22,6 +25,12 @@ func (s *State) clone() *State {
 	}
 	for k, v := range s.heap {
 		n.heap[k] = v // copy-on-write at field update
+	}
+	if len(s.memo) > 0 {
+		n.memo = make(map[string]Value, len(s.memo))
+		for k, v := range s.memo {
+			n.memo[k] = v
+		}
 	}
 	return n
 }
@@ -130,6 +139,15 @@ func mergeStates(a, b *State) *State {
 	for id, ob := range b.heap {
 		if _, ok := a.heap[id]; !ok {
 			r.heap[id] = ob
+		}
+	}
+	// memoised call results survive a merge only when made before the fork (same value on both sides)
+	for k, va := range a.memo {
+		if vb, ok := b.memo[k]; ok && sameValue(va, vb) {
+			if r.memo == nil {
+				r.memo = map[string]Value{}
+			}
+			r.memo[k] = va
 		}
 	}
 	return r
